@@ -91,6 +91,19 @@ func (c13) Run(t *tape.Tape, tier Tier) *Result {
 			spec = &gen.Node{K: gen.WWrap, S: []gen.Str{g.SG.Str(true)}, Kids: []*gen.Node{spec}}
 		}
 	}
+	wide := false
+	if t.Draw(150) == 7 {
+		// rarely: very many leaf-encoded nodes (size-dependent guards and counters)
+		if t.Bool(1, 2) {
+			spec = g.WideTree(60+t.Draw(60), 1)
+		} else {
+			spec = g.WideTree(4, 3)
+		}
+		if t.Bool(1, 2) {
+			spec = &gen.Node{K: gen.WWrap, S: []gen.Str{g.SG.Str(true)}, Kids: []*gen.Node{spec}}
+		}
+		wide = true
+	}
 	b := &gen.Builder{}
 	sim := world.NewSim(t)
 	sim.AddProcess(world.Full())
@@ -98,6 +111,9 @@ func (c13) Run(t *tape.Tape, tier Tier) *Result {
 	e0 := b.Build(spec)
 	want := obs.Tree(e0, false)
 	res.Desc.Tree = spec.Expr()
+	if wide {
+		res.Desc.Tree = fmt.Sprintf("wide multi-cause tree with %d nodes", len(want))
+	}
 	res.Kinds = kindsOf(spec)
 	m1, p := obs.Encode(e0)
 	if p != "" {
@@ -280,7 +296,9 @@ func (c13) Run(t *tape.Tape, tier Tier) *Result {
 			}
 		}
 	}
-	structural(want, "origin", b.MarkRefs)
+	if !wide {
+		structural(want, "origin", b.MarkRefs)
+	}
 	// nodes whose text does not depend on the rendering of a multi-cause node
 	multiFree := make([]bool, len(want))
 	for i := range want {
@@ -357,7 +375,9 @@ func (c13) Run(t *tape.Tape, tier Tier) *Result {
 		}
 		var explicit map[error]error // explicit marks of decoded values are not known to the model
 		_ = explicit
-		structuralDecoded(res, got, refs, refErrs, where)
+		if !wide {
+			structuralDecoded(res, got, refs, refErrs, where)
+		}
 	}
 	sim.Run()
 	res.Stats = sim.Stats
